@@ -466,12 +466,70 @@ func init() {
 				}
 			}()
 			prop := "pass"
-			if res == "blocked" || worst > 1500*time.Millisecond {
+			if res == "blocked" || worst > 1000*time.Millisecond {
 				prop = fmt.Sprintf("FAIL C10 a call against a peer that does not read any more took %v (%s) after %d calls; send and receive time-outs are 200 ms", worst.Round(time.Millisecond), res, calls)
 			} else if res == "ok" {
 				prop = "pass" // the buffers never filled: nothing observed
 			}
 			cw.add("skip", "skip", fmt.Sprintf("N stall deaf-peer calls=%d worst=%dms res=%s", calls, worst.Milliseconds(), res), prop)
+		}
+		// a peer that answers the authentication and then stops reading, nothing waiting to be read on the client's side:
+		// a large request runs into the send time-out and the call ends there (closing the connection does not wait)
+		{
+			took, res := func() (time.Duration, string) {
+				key := "deaf2key"
+				cl, err := rscp.NewClient(rscp.ClientConfig{Address: "a", Username: "u", Password: "p", Key: key, ConnectionTimeout: 300 * time.Millisecond, SendTimeout: 200 * time.Millisecond, ReceiveTimeout: 200 * time.Millisecond})
+				if err != nil {
+					return 0, "newclient-error"
+				}
+				a, b, err := tcpPair()
+				if err != nil {
+					return 0, "no-loopback"
+				}
+				defer b.Close()
+				if ta, ok := a.(*net.TCPConn); ok {
+					ta.SetWriteBuffer(2048)
+				}
+				if tb, ok := b.(*net.TCPConn); ok {
+					tb.SetReadBuffer(2048)
+				}
+				pc := newPeerCipher(key)
+				go func() {
+					rb := make([]byte, 64)
+					if _, err := readFullConn(b, rb); err != nil { // the authentication request (two blocks)
+						return
+					}
+					pl := frameBytes(itemBytes(uint32(rscp.RSCP_AUTHENTICATION), 3, []byte{10}), true, 1, 2)
+					ct := make([]byte, len(pl))
+					pc.enc.CryptBlocks(ct, pl)
+					b.Write(ct)
+					time.Sleep(4 * time.Second) // reads nothing any more, keeps the connection open
+				}()
+				cl.VerifAttachConn(a)
+				req := rscp.Message{Tag: rscp.WB_REQ_DATA, DataType: rscp.Container, Value: []rscp.Message{{Tag: rscp.WB_EXTERN_DATA, DataType: rscp.ByteArray, Value: make([]byte, 60000)}}}
+				done := make(chan string, 1)
+				t0 := time.Now()
+				go func() {
+					defer func() { recover() }()
+					if _, err := cl.Send(req); err != nil {
+						done <- "err"
+					} else {
+						done <- "ok"
+					}
+				}()
+				select {
+				case r := <-done:
+					return time.Since(t0), r
+				case <-time.After(3500 * time.Millisecond):
+					a.Close()
+					return time.Since(t0), "blocked"
+				}
+			}()
+			prop := "pass"
+			if res == "blocked" || took > 1100*time.Millisecond {
+				prop = fmt.Sprintf("FAIL C10 a large request to a peer that stopped reading took %v (%s); send and receive time-outs are 200 ms", took.Round(time.Millisecond), res)
+			}
+			cw.add("skip", "skip", fmt.Sprintf("N stall deaf-peer-large-request took=%dms res=%s", took.Milliseconds(), res), prop)
 		}
 		var wg sync.WaitGroup
 		sem := make(chan struct{}, 16)
